@@ -14,6 +14,9 @@ from pyasn1.type import univ
 
 _PY2 = sys.version_info < (3,)
 
+# Never ask a stream for more than this many octets in one read() call
+MAX_READ_SIZE = 128 * io.DEFAULT_BUFFER_SIZE
+
 
 class CachingStreamWrapper(io.IOBase):
     """Wrapper around non-seekable streams.
@@ -226,7 +229,7 @@ def readFromStream(substrate, size=-1, context=None):
     """
     while True:
         # this will block unless stream is non-blocking
-        received = substrate.read(size)
+        received = substrate.read(min(size, MAX_READ_SIZE))
         if received is None:  # non-blocking stream can do this
             yield error.SubstrateUnderrunError(context=context)
 
@@ -236,12 +239,18 @@ def readFromStream(substrate, size=-1, context=None):
         elif len(received) < size:
             # a short read: take what else is readily available, the rest
             # is either on its way or will never come
+            parts = [received]
+            missing = size - len(received)
             more = received
-            while more and len(received) < size:
-                more = substrate.read(size - len(received))
-                received += more or null
+            while more and missing:
+                more = substrate.read(min(missing, MAX_READ_SIZE))
+                if more:
+                    parts.append(more)
+                    missing -= len(more)
 
-            if len(received) == size:
+            received = null.join(parts)
+
+            if not missing:
                 break
 
             substrate.seek(-len(received), os.SEEK_CUR)
